@@ -243,9 +243,10 @@ func c06check(w *Worker, cs c06case, hook bool, idx int64) {
 	if fmtComparable {
 		bc.resetCounters()
 		fx := x
-		if cs.RV {
+		if cs.RV && cs.RVForm != 0 {
 			fo = fmtWith(d, reflect.ValueOf(fx))
 		} else {
+			// (reflect.ValueOf(wrapper): the content is handed to the printer like a top-level operand)
 			fo = fmtWith(d, fx)
 		}
 		if fo.panicked || !utf8.ValidString(fo.out) {
@@ -257,7 +258,7 @@ func c06check(w *Worker, cs c06case, hook bool, idx int64) {
 			w.Violate("C06 unsafe-leak", "text outside envelopes under Unsafe: "+q(so)+" in "+q(out.out)+" for "+cs.String(), csf())
 			return
 		}
-		if fmtComparable && !cs.RV {
+		if fmtComparable && (!cs.RV || (cs.RVForm == 0 && cs.X.K != "nil" && !wrappedNil(cs.X) && !strings.HasPrefix(cs.X.K, "RV"))) {
 			if got, want := refStrip(p), esc(fo.out); got != want {
 				w.Violate("C06 unsafe-text", "stripped "+q(got)+" but fmt prints x as "+q(want)+" for "+cs.String(), csf())
 				return
@@ -274,7 +275,7 @@ func c06check(w *Worker, cs c06case, hook bool, idx int64) {
 			w.Violate("C06 safe-enveloped", "envelope under Safe: "+q(out.out)+" for "+cs.String(), csf())
 			return
 		}
-		if fmtComparable && !cs.RV {
+		if fmtComparable && (!cs.RV || (cs.RVForm == 0 && cs.X.K != "nil" && !wrappedNil(cs.X) && !strings.HasPrefix(cs.X.K, "RV"))) {
 			if want := esc(fo.out); out.out != want {
 				w.Violate("C06 safe-text", "Safe(x) prints "+q(out.out)+" but fmt prints x as "+q(want)+" for "+cs.String(), csf())
 				return
